@@ -96,12 +96,25 @@ void a_que_dtor(a_que *ctx, void (*dtor)(void *))
     ctx->mem_ = 0;
 }
 
+/* Closes the element ring on its own head after the head has been copied from `old`. */
+static void a_que_swap_head_(a_list *head, a_list const *old)
+{
+    if (head->next == old) { a_list_ctor(head); }
+    else
+    {
+        head->next->prev = head;
+        head->prev->next = head;
+    }
+}
+
 void a_que_swap(a_que *lhs, a_que *rhs)
 {
     a_que swap;
     swap = *lhs;
     *lhs = *rhs;
     *rhs = swap;
+    a_que_swap_head_(&lhs->head_, &rhs->head_);
+    a_que_swap_head_(&rhs->head_, &lhs->head_);
 }
 
 int a_que_drop(a_que *ctx, void (*dtor)(void *))
